@@ -251,6 +251,10 @@ func (l *Lexer) NextToken() Token {
 	if isLetter(l.ch) {
 		ident := l.readIdentifier()
 		token := l.lookupIdent(ident)
+		if tokenPos > 0 && l.input[tokenPos-1] == '.' {
+			// a path segment right after a dot (items[0].order, cfg['a'].limit) is a name, whatever it spells
+			token = Token{Type: TokenIdent, Value: ident}
+		}
 		token.Pos = tokenPos
 		token.Line = tokenLine
 		token.Column = tokenColumn
